@@ -77,6 +77,7 @@ NEGATIVE = {   # name -> (constants, invariant that must be reported violated)
 SITE = {
     ("fetch", "local"): "dulwich/repo.py:BaseRepo.fetch",
     ("fetch", "localpack"): "dulwich/client.py:LocalGitClient.fetch_pack",
+    ("fetch", "mofapi"): "dulwich/object_store.py:MissingObjectFinder",
     ("fetch", "tcp"): "dulwich/server.py:UploadPackHandler.handle",
     ("fetch", "gitserver"): "dulwich/client.py:TraditionalGitClient.fetch_pack",
     ("fetch", "gitclient"): "dulwich/server.py:UploadPackHandler.handle",
@@ -197,6 +198,8 @@ def jobs_for_case(ctx, c, space, k, gitfrac, tid0):
         job("fetch", "localpack", slayout=layout, rlayout=rlayout)
     job("fetch", "tcp", caps={"mode": c["mode"], "inctag": c["inctag"], "nodone": bool((h >> 11) & 1)},
         slayout=layout, rlayout=rlayout)
+    if c["inctag"] and c["U"]["tg"]:
+        job("fetch", "mofapi", caps={"inctag": True}, slayout=layout, rlayout=rlayout)
     g = (h >> 13) % gitfrac
     if g == 0:
         job("fetch", "gitserver", caps={"mode": c["mode"], "inctag": c["inctag"], "thin": c["thin"] and bool((h >> 17) & 1),
@@ -282,7 +285,7 @@ def extra_jobs(ctx):
     rng = ctx.rng
     out = []
     n_rand = ctx.pick(80, 1500)
-    transports = [("fetch", "local"), ("fetch", "localpack"), ("fetch", "tcp"), ("fetch", "tcp"), ("fetch", "gitserver"),
+    transports = [("fetch", "local"), ("fetch", "localpack"), ("fetch", "mofapi"), ("fetch", "tcp"), ("fetch", "tcp"), ("fetch", "gitserver"),
                   ("fetch", "gitclient"), ("push", "local"), ("push", "tcp"), ("push", "gitserver"), ("push", "gitclient"),
                   ("clone", "local"), ("clone", "tcp"), ("clone", "gitserver"), ("clone", "gitclient")]
     for i in range(n_rand):
@@ -443,6 +446,8 @@ def run(ctx):
     for sp, fu in cases_f.items():
         res = fu.result()
         ctx.add_tlc("TransferCases[" + sp + "]", res)
+        if not res.ok:
+            raise MachineryError(f"TLC run TransferCases[{sp}] did not finish cleanly (rc={res.rc})\n{res.output[-2500:]}")
         n = 0
         for k, stt in enumerate(tlc.load_state_dump(os.path.join(d, "cases_" + sp))):
             c = case_from_state(stt["cs"])
@@ -481,6 +486,8 @@ def run(ctx):
     for sp, fu in mc_f.items():
         res = fu.result()
         ctx.add_tlc("Transfer[" + sp + "]", res)
+        if not res.ok:
+            raise MachineryError(f"TLC run Transfer[{sp}] did not finish cleanly (rc={res.rc}, timed_out={res.timed_out})\n{res.output[-2500:]}")
         ctx.log(f"Transfer[{sp}]: {res.distinct} distinct / {res.generated} generated states, depth {res.depth}, {res.wall_s:.1f}s")
     for name, fu in nc_f.items():
         res = fu.result()
